@@ -131,9 +131,12 @@ Proof.
   intros f x HR. unfold status_ok, status_holds. rewrite HR. cbn [negb orb].
   destruct (f_status f) as [|s l].
   - split; auto.
-  - rewrite existsb_exists. split.
-    + intros [y [H1 H2]]. apply Z.eqb_eq in H2. subst. right. exact H1.
-    + intros [H|H]; [discriminate|]. exists (t_status x). split; [exact H | apply Z.eqb_refl].
+  - destruct (resp_status x) as [st|].
+    + rewrite existsb_exists. split.
+      * intros [y [H1 H2]]. apply Z.eqb_eq in H2. subst y. right. exists st. auto.
+      * intros [H|[st' [E H]]]; [discriminate|]. inversion E; subst st'.
+        exists st. split; [exact H | apply Z.eqb_refl].
+    + split; [discriminate|]. intros [H|[st' [E _]]]; discriminate.
 Qed.
 
 Lemma query_ok_iff : forall f x, t_resp x = false -> (query_ok f x = true <-> query_holds f x).
